@@ -2694,3 +2694,75 @@ func connFailurePredicate(h *ssa.Function) bool {
 	}
 	return some
 }
+
+// ruleDecodedSetsKeepIdentity: C02.o. A number set the wire decoder hands to
+// its caller through an out-pointer is the decoded value itself: the `$`
+// marker (imap.SearchRes()) is an ordinary empty UIDSet recognised by its data
+// pointer, so a decoder that copies the elements into the caller's set
+// (`*ptr = append((*ptr)[:0], set...)`) turns "the saved search result" into
+// "no messages".
+func ruleDecodedSetsKeepIdentity(c *Ctx, rule string) {
+	p := c.P
+	n := 0
+	isSetPtr := func(t types.Type) bool {
+		pt, ok := t.(*types.Pointer)
+		if !ok {
+			return false
+		}
+		nm, ok := types.Unalias(pt.Elem()).(*types.Named)
+		return ok && (nm.Obj().Name() == "UIDSet" || nm.Obj().Name() == "SeqSet" || nm.Obj().Name() == "NumSet")
+	}
+	for _, fn := range p.SrcFuncs("internal/imapwire") {
+		if nm := recvNamedOfFn(fn); nm == nil || nm.Obj().Name() != "Decoder" {
+			continue
+		}
+		var outs []*ssa.Parameter
+		for _, q := range fn.Params {
+			if isSetPtr(q.Type()) {
+				outs = append(outs, q)
+			}
+		}
+		if len(outs) == 0 {
+			continue
+		}
+		allInstrs(fn, func(i ssa.Instruction) {
+			st, ok := i.(*ssa.Store)
+			if !ok {
+				return
+			}
+			isOut := false
+			for _, q := range outs {
+				if st.Addr == ssa.Value(q) || paramOf(st.Addr) == q {
+					isOut = true
+				}
+			}
+			if !isOut {
+				return
+			}
+			n++
+			copied := false
+			v := st.Val
+			for k := 0; k < 4; k++ {
+				switch x := v.(type) {
+				case *ssa.MakeInterface:
+					v = x.X
+					continue
+				case *ssa.ChangeType:
+					v = x.X
+					continue
+				case *ssa.Call:
+					if b, ok := x.Call.Value.(*ssa.Builtin); ok && (b.Name() == "append" || b.Name() == "copy") {
+						copied = true
+					}
+				}
+				break
+			}
+			c.check(!copied, rule, fmt.Sprintf("%s: set stored through the out-pointer#%d", fnKey(fn), countKey(c, rule, fnKey(fn)+": set stored through the out-pointer#")+1), instrPos(st),
+				"the decoded set itself is handed over",
+				"the decoded number set is copied element by element into the caller's set: a copy of the `$` marker (SearchRes) is an ordinary empty set, so `UID FETCH $`/`UID STORE $` reach the backend as an empty set instead of the saved search result")
+		})
+	}
+	if n == 0 {
+		c.unresolvedRoot("number sets stored through out-pointers of Decoder methods")
+	}
+}
